@@ -51,6 +51,18 @@ CHECKS = {
         '__index__ is outside the property (conversions int/float/complex). Pint mode out of scope. Print Assumptions: closed under the global context.',
    technique='translator-regenerated model + Coq proof by computation over the operator enumeration + correspondence on all operator x operand combinations',
    design='DESIGN.md §3 C20'),
+ 'C19': dict(
+   text='Machine-checked proof (Coq) over a model of == / != / hash for every Haystack value kind under Python\'s rich-comparison protocol (each class\'s __eq__/__ne__, NotImplemented, '
+        'reflected operand, subclass-first rule, identity fall-back): on all scalar kinds == is symmetric, != is its exact complement, == is reflexive for NaN-free values, the only exception is '
+        'TypeError for two Quantities of different units, Uri/Bin/str with equal text are pairwise unequal and != says so, a Ref with and without display name differ, equal values of one kind have '
+        'equal hash keys; Grid.__eq__ never raises, a grid equals a faithful copy, grids with different row counts / names are unequal, and equality implies every pair of cells is of one kind and within tolerance. '
+        'Tied to the code by all ordered pairs of an 86-value catalogue (==, !=, _approx_check, hash) and 7000+ grid pairs.',
+   note='PARTIAL: the theorems are proved for flat (scalar) values; the same statements for lists and dicts are not proved and are covered by the correspondence only (identity shortcuts of '
+        'container comparison are not modelled; NaN inside containers excluded). Numbers are exact (m*2^e); _approx_check tolerance is modelled with the exact difference (no rounding of v1 - v2). '
+        'Builtin equality of str/int/float/datetime, tzinfo equality, hash() of builtins are CPython oracles. copy/deepcopy of the singletons is checked on the implementation only. '
+        'Print Assumptions: closed under the global context.',
+   technique='Coq proof by case analysis over the kind lattice + correspondence on all ordered pairs of a catalogue',
+   design='DESIGN.md §3 C19'),
 }
 PENDING = {}
 for i in range(1, 21):
